@@ -1,7 +1,7 @@
 (* Model/DispatchC20.v — entry point of the C20 models for the OCaml driver and the vm_compute cross-check.
    Times travel as their microsecond of the day (tod); results: 0 :: values | [1; exn code] | [9] bad call. *)
 From Coq Require Import ZArith List Bool.
-From PV Require Import Lib.PyBase Spec.Cal Model.TimeBase Gen.TimeArith Model.TimeOfDay.
+From PV Require Import Lib.PyBase Spec.Cal Model.TimeBase Gen.TimeArith Model.TimeOfDay Model.TimeOperand.
 Import ListNotations.
 Open Scope Z_scope.
 
@@ -10,6 +10,8 @@ Definition of_time (r : result ptime) : list Z :=
   match r with Ok t => [0; tod t; Z.b2z (valid_time t)] | Raise e => [1; exn_code e] end.
 Definition of_time2 (r : result (ptime * ptime)) : list Z :=
   match r with Ok (a, b) => [0; tod a; tod b] | Raise e => [1; exn_code e] end.
+Definition of_list (r : result (list Z)) : list Z :=
+  match r with Ok l => 0 :: l | Raise e => [1; exn_code e] end.
 Definition T := time_of_tod.
 
 Definition dispatch (fn : Z) (args : list Z) : list Z :=
@@ -30,5 +32,9 @@ Definition dispatch (fn : Z) (args : list Z) : list Z :=
   | 12 (* add_duration_norm *), [d;h;m;s;us] =>
       let '(_, _, d', h', m', s', us') := py_add_duration_norm 0 0 d h m s us in ok [d'; h'; m'; s'; us']
   | 13 (* time_fields *), [t] => let x := T t in ok [t_hour x; t_minute x; t_second x; t_microsecond x; tod x]
+  (* a timedelta SUBCLASS operand: k = 0 Duration, 1 AbsoluteDuration (nine constructor arguments), 2 Interval (d = its span in microseconds) *)
+  | 14 (* time_add_operand *), [t;k;d;s;us;ms;mi;h;w;y;mo] => of_time (time_add_operand (T t) k d s us ms mi h w y mo)
+  | 15 (* time_subtract_operand *), [t;k;d;s;us;ms;mi;h;w;y;mo] => of_time (time_subtract_operand (T t) k d s us ms mi h w y mo)
+  | 16 (* operand_observe *), [k;d;s;us;ms;mi;h;w;y;mo] => of_list (operand_observe k d s us ms mi h w y mo)
   | _, _ => [9]
   end.
